@@ -321,7 +321,8 @@ func (fx *fixtures) fileContent(f fileSpec) []byte {
 	case "bundle":
 		return append(append([]byte{}, lf.certPEM...), lf.keyPEM...)
 	case "keyfirst":
-		return append(append([]byte{}, lf.keyPEM...), lf.certPEM...)
+		// the key in front of the certificate, and a second (foreign) key behind it: "use only the first key in the file"
+		return append(append(append([]byte{}, lf.keyPEM...), lf.certPEM...), fx.leaves["ZZ"].keyPEM...)
 	case "ecparams":
 		// what `openssl ecparam -genkey` writes: the curve (OID of prime256v1) in a block of its own in front of the key
 		params := pemBlock("EC PARAMETERS", []byte{0x06, 0x08, 0x2a, 0x86, 0x48, 0xce, 0x3d, 0x03, 0x01, 0x07})
